@@ -6,6 +6,37 @@ ALL = ["C%02d" % i for i in range(1, 21)]
 
 # id -> (technique, level text, level_note, design_ref)
 CLAIMS = {
+ "C07": ("Lean 4 proofs on an Int64 evaluator model + precedence table regenerated from the PEG grammar; five-way correspondence",
+         "Proof: Model/Arith.lean mirrors brush-core arithmetic.rs (eval order, short circuit, assignment, recursive variable dereference with "
+         "the 1024 limit, wrapping Int64 operators, wpow) with termination by well-founded recursion; Model/ArithParse.lean is the peg "
+         "precedence-climbing algorithm over a level table regenerated from brush-parser/src/arithmetic.rs on every run. 32 theorems: "
+         "binop/bitop/unop_refines_c (every operator equals C semantics on Z then two's-complement wrap, incl. MIN/-1, shifts mod 64), "
+         "wpow_eq_repeated_mul, short-circuit/?: laziness, left-to-right effects, op-assign, ++/--, error iff div-by-zero or negative exponent, "
+         "levels_eq_c_table (decide over the generated table), radix_literal_wraps; divergences from bash carried as proved counter-examples "
+         "and findings. Tie: parse S-expression and eval (value/error kind + variables) in-process vs model, binary vs in-process, brush vs bash.",
+         "Trusted: Lean kernel + standard axioms; the translator for the precedence table; bash as oracle (its unevaluated-branch exponent quirk "
+         "is counted as oracle mismatch). Contexts (let, subscripts, substring offsets, declare -i) are sampled end to end, not modelled.",
+         "DESIGN.md §6 C07"),
+ "C17": ("Lean 4 invariant proofs over job-table histories and completion schedules + in-process and end-to-end correspondence",
+         "Proof: Model/Jobs.lean mirrors JobManager (add_as_current, poll, sweep, wait_all, job-spec resolution) with the environment as a "
+         "completion schedule. Theorems for all tables/schedules/histories: wait_all returns only after every task of every job finished and "
+         "leaves an empty table, returns whenever all finish, blocks while one is unfinished; no job lost, run twice or removed early; `%N` "
+         "addresses job N; ids distinct without polls (partial), refuted with polls for the code's len+1 rule (cex, recorded finding) and proved "
+         "for the max+1 repair. Tie: a real Shell runs gated background jobs in-process (harness releases gates) vs the model step by step, plus "
+         "brush vs bash on generated job scripts (marker files, `wait`, `jobs`; -c/stdin/file; taskset 1/2/all cores; pause points).",
+         "Trusted: Lean kernel + standard axioms. Partial: that the effects of a finished tokio task are visible when wait returns is a runtime "
+         "fact observed with marker files, not proved; multi-task jobs are modelled but cannot be driven (Job::new is pub(crate)).",
+         "DESIGN.md §6 C17"),
+ "C19": ("Lean 4 tiling invariant over the span builder + exhaustive in-process evaluation of the predicate on the real highlighter",
+         "Proof: Model/Highlight.lean mirrors highlight_program / highlight_word_piece / append_span / skip_ahead over the token-and-piece tree "
+         "the highlighter sees. spans_tile_line_partial: for every well-nested tree and cursor the spans are non-empty, ordered, contiguous and "
+         "cover [0, len); render_reproduces_text_partial; spans_on_char_boundaries_partial; append_span_monotone_needed; tokenizer-failure "
+         "fallback. The well-nestedness hypothesis about tokenizer/word-parser output is checked on every generated line; its failures (here-doc "
+         "token order, backquote unescaping) are proved counter-examples and recorded findings. Tie: 20 M real highlight_command calls per quick "
+         "run (all lines to length 5 over 20 symbols x every cursor) evaluated against the predicate, and tree -> model spans vs real spans.",
+         "Trusted: Lean kernel + standard axioms; the harness's reconstruction of the tree via the same public tokenizer/word-parser functions. "
+         "The tokenizer and word parser themselves are not modelled.",
+         "DESIGN.md §6 C19"),
  "C03": ("Lean 4 refinement + invariant proofs on the control-flow model with options; three-way correspondence; decision-table check for nounset",
          "Proof: the C02 models extended with set -e / pipefail / inherit_errexit toggles, command substitutions, eval and pipelines. "
          "errexit_refines_bash_partial: on every well-scoped program brush exits (or not) at exactly the command where the bash reference "
